@@ -73,8 +73,12 @@ def split_global_time(
     if ts_col.dtype.kind in ("i", "u", "f"):
         log.debug("converting query timestamps")
         times = [_unix_time(t) for t in time]
+        if end is not None:
+            end = _unix_time(end)
     else:
         times = [_make_time(t) for t in time]
+        if end is not None:
+            end = _make_time(end)
 
     results = []
     for i, t in enumerate(times):
